@@ -68,6 +68,9 @@ func (h *histProp) Plan(tier string, seed int64) []core.Segment {
 			segs = append(segs, core.Segment{Kind: "default:" + t, N: def, Chunk: 1})
 		} else {
 			segs = append(segs, core.Segment{Kind: "long:" + t, N: 300 * tierScale(tier, 20)})
+			if tier == "thorough" {
+				segs = append(segs, core.Segment{Kind: "bigblock:" + t, N: 1500, Chunk: 10})
+			}
 		}
 	}
 	return segs
@@ -99,6 +102,26 @@ func (h *histProp) Gen(kind string, idx int64, seed int64, tier string) core.Cas
 		// long histories on small buffers: many fills, effects that
 		// accumulate over many operations
 		pc = GenPCase(r, typ, o, h.weights, 300+r.Intn(300), 4000+r.Intn(8000))
+	case "bigblock":
+		// blocks up to 4 KiB with small windows (keeps the O(n*W*L) and
+		// O(n^2) oracles affordable)
+		o.MaxBuf = 6000
+		o.MinBuf = 600
+		pc = GenPCase(r, typ, o, h.weights, 40+r.Intn(40), 6000+r.Intn(14000))
+		pc.Cfg.BlockSize = 300 + r.Intn(3800)
+		pc.Cfg.WindowSize = 2 + r.Intn(62)
+		if typ == "GSAP" {
+			pc.Cfg.WindowSize = pc.Cfg.BufferSize + r.Intn(2)
+			pc.Cfg.BlockSize = 300 + r.Intn(1200)
+		}
+		if typ == "OSAP" && pc.Cfg.MaxMatchLen > 64 {
+			pc.Cfg.MaxMatchLen = pc.Cfg.MinMatchLen + r.Intn(60)
+		}
+		for i := range pc.Ops {
+			if (pc.Ops[i].K == "write" || pc.Ops[i].K == "readfrom") && pc.Ops[i].A == 0 {
+				pc.Ops[i].B *= 1 + r.Intn(30)
+			}
+		}
 	case "mid":
 		// buffers beyond the first allocation sizes (1 KiB .. 8 KiB), write
 		// sizes that land around the capacity steps
